@@ -314,7 +314,8 @@ class Contract:
         body = list(f.node.body)
         idx = []
         pos = 0
-        for anchor, name, inv in self.cuts:
+        for cut in self.cuts:
+            anchor, name, inv = cut[:3]
             hit = None
             for i in range(pos, len(body)):
                 if ast.unparse(body[i]).startswith(anchor):
@@ -322,7 +323,7 @@ class Contract:
                     break
             if hit is None:
                 raise Unsupported("cut point %r not found in %s" % (anchor, self.name()))
-            idx.append((hit, name, inv))
+            idx.append((hit, name, inv, len(cut) > 3 and cut[3] == "assumed"))
             pos = hit + 1
         names = eng.assigned_names(body)
         entry = fx.entry_ctx.pre
@@ -330,10 +331,16 @@ class Contract:
         cur = [st]
         start = 0
         nm = self.name()
-        for hit, name, inv in idx + [(len(body), None, None)]:
+        for hit, name, inv, assumed in idx + [(len(body), None, None, False)]:
             seg = body[start:hit]
             oks = []
-            for s0 in cur:
+            if assumed:
+                # the segment before this cut is NOT verified: its effect is taken to be the cut invariant (an assumption the
+                # contract must declare); execution continues from the cut state
+                eng.stats["assumed"].add("segment before cut '%s' of %s" % (name, nm))
+                oks = [Res("ok", s0) for s0 in cur]
+                seg_names = eng.assigned_names(seg)
+            for s0 in ([] if assumed else cur):
                 for r in (eng.exec_block(seg, s0, fx) if seg else [Res("ok", s0)]):
                     (oks if r.kind == "ok" else finals).append(r)
             if inv is None:
@@ -341,7 +348,7 @@ class Contract:
                 break
             lc = Ctx(eng, self, entry, dict(fx.entry_ctx.args))
             lc.side = "verify"
-            for r in oks:
+            for r in ([] if assumed else oks):
                 set_mode("prove", r.st)
                 for cn, g in inv(lc, r.st):
                     eng.oblige(r.st, "%s.cut.%s.%s" % (nm, name, cn), g, kind="cut")
@@ -349,7 +356,7 @@ class Contract:
             h = entry.fork()
             h.env = dict(oks[0].st.env) if oks else dict(st.env)
             for v in eng.assigned_names(body[:hit]):     # locals assigned before the cut
-                if v in h.env:
+                if v in h.env or assumed:
                     h.env[v] = fresh("cv_" + v)
             self.havoc(h, list(self.modifies(fx.entry_ctx)))
             h.frames = st.frames
